@@ -296,7 +296,9 @@ theorem BldOK.writeLBSrc {b : Bld} (h : BldOK b) (svc : Svc) (id count loc flags
     split
     · exact h1
     · exact Consistent.setF (d := { b.des with F := _ }) h1 _ _ (fun hne => absurd rfl hne)
-  · exact h.svc
+  · unfold C42.writeLBSrc
+    simp only []
+    split <;> exact h.svc
 
 theorem BldOK.updateService {b : Bld} (h : BldOK b) (skey : SvcKey) (svc : Svc) (id : Nat) (eps : List Ep) :
     BldOK (updateService b skey svc id eps).1 ∧
